@@ -18,7 +18,8 @@ RULE = ('cases are (table, label mode): tables exhaustive n*m <= 12 (quick) / <=
         '| j lower cover of i} by the REFERENCE cover relation; a self-loop with headlabel on a node iff the '
         'reference labelling puts objects there, built from exactly those names in context order; same for taillabel '
         'and properties; nothing else in the body. Non-trivial: >= 3 concepts and some concept carries >= 2 names in '
-        'one label or both kinds of label.')
+        'one label or both kinds of label. The default mode is run a second time on the same lattice after the Digraph '
+        'returned by an earlier call was edited by the caller (the drawing may not depend on earlier drawings).')
 ASSUMPTIONS = ['reference model vlib/oracle.py', 'graphviz package quotes attribute values as DOT strings '
                '(backslash, <, > excluded from generated labels)']
 
@@ -100,11 +101,19 @@ def check_one(case, ctx, deep):
         k = len(b.ref.concepts)
         multi = (any(len(v) >= 2 for v in objs_at.values()) or any(len(v) >= 2 for v in props_at.values())
                  or bool(set(objs_at) & set(props_at)))
-        for mode in ('token', 'default'):
+        for mode in ('token', 'default', 'default-again'):
             if rep == 0:
                 ctx.case({'table': plain, 'mode': mode}, k >= 3 and multi,
                          [lib.size_bucket(k), 'mode:' + mode] + (['multi-or-both-labels'] if multi else []))
-            check_mode(b, case, ctx, plain, mode)
+            if mode == 'default-again':
+                # history on ONE lattice: draw, let the caller edit the returned Digraph, draw again
+                dot = ctx.call('graphviz', plain, b.lattice.graphviz)
+                dot.node('c0', color='red')
+                dot.edge('c0', 'c0', style='dashed')
+                del dot.body[:len(dot.body) // 2]
+                check_mode(b, case, ctx, plain, 'default')
+            else:
+                check_mode(b, case, ctx, plain, mode)
 
 
 @st.composite
